@@ -3,8 +3,9 @@
 set -u
 patch=$1; prop=$2; shift 2
 cd /repo || exit 2
-if ! git apply --check "$patch" 2>/dev/null; then echo "PATCH DOES NOT APPLY: $patch"; exit 3; fi
-git apply "$patch"
+if git apply --check "$patch" 2>/dev/null; then git apply "$patch";
+elif git apply --3way "$patch" 2>/dev/null && [ -z "$(git diff --name-only --diff-filter=U)" ]; then git reset -q;
+else echo "PATCH DOES NOT APPLY: $patch"; git checkout -- . ; exit 3; fi
 cd /verif && ./check.py "$prop" "$@" 2>/dev/null | grep -E "^(VIOLATION|SUMMARY|UNCONFIRMED|INCONCLUSIVE|KNOWN)" | cut -c1-260
 rc=${PIPESTATUS[0]}
 git -C /repo checkout -- .
